@@ -814,10 +814,10 @@ pub fn gen_shadow(rng: &mut Rng) -> Vec<Op> {
 pub fn leaf(v: usize, slots: &[u32]) -> ATerm {
     ATerm { v, fields: slots.iter().map(|s| CField::Slot(*s)).collect(), children: vec![] }
 }
-fn un(v: usize, a: ATerm) -> ATerm {
+pub fn un(v: usize, a: ATerm) -> ATerm {
     ATerm { v, fields: vec![CField::App], children: vec![a] }
 }
-fn bin(v: usize, a: ATerm, b: ATerm) -> ATerm {
+pub fn bin(v: usize, a: ATerm, b: ATerm) -> ATerm {
     ATerm { v, fields: vec![CField::App, CField::App], children: vec![a, b] }
 }
 
